@@ -2,11 +2,11 @@ SPECIFICATION Spec
 CONSTANTS
   EmitOn = FALSE
   Mode = "mc"
-  IPSets <- IP5x2
-  FnW <- FW2x2
-  FnB <- FB2x1
-  AuthModes <- Au2
-  MaxCfgs = 1
+  IPSets <- IPq
+  FnW <- FW3
+  FnB <- FBq
+  AuthModes <- Au3
+  MaxCfgs = 2
   MaxReqs = 0
   EthLegacyAware = TRUE
   StreamGated = FALSE
